@@ -1,10 +1,11 @@
 import EqsigVerif.Handlers.Displacements
 import EqsigVerif.Handlers.Peaks
+import EqsigVerif.Handlers.Switched
 /-! table of all driver handlers -/
 namespace EqsigVerif.Handlers
 open EqsigVerif.Wire
 
 def table : List (String × Handler) :=
-  Displacements.handlers ++ Peaks.handlers
+  Displacements.handlers ++ Peaks.handlers ++ Switched.handlers
 
 end EqsigVerif.Handlers
